@@ -961,10 +961,24 @@ func (s *c2Sweeper) sweepChunk(cfg c2Config, variant int, inst string, restartFi
 		fullSnap = rp.w.take(all)
 	}
 	s.sweepInstance(rp, cfg, in, rng, part, parts)
+	if !exc && cfg.Mode == "default" && len(rp.committed) > 1 && in.Versioned {
+		// later history on the master line itself: an open master child of the committed master
+		// version gets a generation of writes and deletions (the "head" of a branch is where
+		// in-memory copies of data live; committed ancestors must not read through them)
+		r, err := rp.w.n.HTTP("POST", "/api/node/"+rp.committed[1]+"/newversion", []byte(`{"note":"master child"}`))
+		must(err, "newversion of committed master node")
+		var o struct{ Child string }
+		json.Unmarshal(r.Bytes(), &o)
+		if r.Status == 200 && o.Child != "" {
+			rp.w.writeInst(in, o.Child, 5, "put")
+			rp.w.writeInst(in, o.Child, 5, "del")
+			must(rp.w.n.Idle(), "idle after master-child writes")
+		}
+	}
 	if !exc {
 		// nothing anywhere on the committed nodes may have changed (cross-instance effects)
 		after := rp.w.take(all)
-		if d := rp.confirm(fullSnap, all, snap.Diff(fullSnap, after)); len(d) > 0 {
+		if d := knownFilter(s.run, rp.w, rp.confirm(fullSnap, all, snap.Diff(fullSnap, after))); len(d) > 0 {
 			s.run.Violation("c02-frozen", c2Divergence{Kind: "committed-node-changed-elsewhere", Config: cfg, Variant: variant, Instance: in, Diffs: d,
 				Note: "after the sweep of this instance's endpoints the full snapshot of the committed nodes differs"})
 		}
